@@ -26,9 +26,14 @@ func judgeWrites(c *vs.Case, e *Env, t *SyncTrace, parent map[string]any, epoch 
 		}
 		return true
 	}
+	// objects this sync itself made the parent's (adoption edits, creations) before touching them again
+	ownedDuringSync := map[string]bool{}
 	for _, r := range t.Reqs {
 		if r.Epoch != epoch || !r.Mutating() || !r.Accepted() || r.Actor != "controller" {
 			continue
+		}
+		if r.Post != nil && r.Verb != "delete" && controlled(r.Post) {
+			ownedDuringSync[r.Def.Resource+"|"+ObjID(r.Post)] = true
 		}
 		res := r.Def.Resource
 		if res == cfg.ParentResource {
@@ -46,6 +51,10 @@ func judgeWrites(c *vs.Case, e *Env, t *SyncTrace, parent map[string]any, epoch 
 			cached := FindIn(t.PreCache[res], r.Pre)
 			if cached == nil || metaStr(cached, "uid") != puid {
 				return vs.Violf("C02/delete-uid-not-observed", "%s: UID precondition %s is not the UID of the object observed in the cache (%v)", desc, puid, cached != nil)
+			}
+			if !controlled(r.Pre) && !controlled(cached) && !ownedDuringSync[res+"|"+ObjID(r.Pre)] {
+				// not even the observed object was the parent's: nothing was "transferred" here
+				return vs.Violf("C02/delete-of-object-never-controlled", "%s deleted an object that the parent (uid %s) controls neither on the server nor in the cache it acted on: live ownerReferences=%v cached ownerReferences=%v", desc, uid, metaOfMap(vs.CopyMap(r.Pre))["ownerReferences"], metaOfMap(vs.CopyMap(cached))["ownerReferences"])
 			}
 			if !controlled(r.Pre) {
 				v := vs.Violf("C02/delete-after-ownership-transfer", "%s deleted an object that the parent (uid %s) does not control at that moment: ownerReferences=%v", desc, uid, metaOfMap(vs.CopyMap(r.Pre))["ownerReferences"])
